@@ -200,6 +200,11 @@ structure DSt where
   symFresh : Bool := false
   /-- `rayon::current_num_threads()` as reported by the implementation -/
   avail : Nat := 0
+  /-- no operator of this case has (so far) acted differently in the model and in the
+  implementation: while this holds, differences in what the block queue / runner does with
+  the operators are attributed to the queue / runner; once an operator itself differs they
+  are tagged `.opsdiffer` -/
+  opsAgree : Bool := true
 
 structure Report where
   msgs : Array String := #[]
@@ -932,9 +937,10 @@ def stepInt (st : DSt) (r : Report) (ln : Nat) (cmd obs : Toks) : Option (DSt ×
         if what == "finish" then (sym.finish draws).map (·.1) else some sym
       match symR, o with
       | some s', "creg" :: v :: n :: "psi" :: pv =>
+        let sfx := if st.opsAgree then "" else ".opsdiffer"
         let r := if s!"{s'.cReg.value} {s'.cReg.qNum}" == s!"{v} {n}" then r
-                 else r.mismatch st ln ("isym." ++ what ++ ".creg") s!"{s'.cReg.value} {s'.cReg.qNum}" s!"{v} {n}"
-        let r := cmpVec r st ln ("isym." ++ what) s'.qReg.psi pv
+                 else r.mismatch st ln ("isym." ++ what ++ ".creg" ++ sfx) s!"{s'.cReg.value} {s'.cReg.qNum}" s!"{v} {n}"
+        let r := cmpVec r st ln ("isym." ++ what ++ sfx) s'.qReg.psi pv
         let impl := (parseCVec pv).map (·.1) |>.getD #[]
         -- C05 on executed programs: the final state is a valid state
         let r := if what == "finish" then specValid r st ln s'.qReg.qNum impl else r
@@ -943,12 +949,18 @@ def stepInt (st : DSt) (r : Report) (ln : Nat) (cmd obs : Toks) : Option (DSt ×
           if what == "finish" && st.symFresh then
             match Spec.refRun st.progNodes int.mOp draws with
             | some rs =>
-              let r := specCheck r st ln "refsem.creg" (s!"{rs.c.value} {rs.c.qNum}" == s!"{v} {n}")
+              let r := specCheck r st ln ("refsem.creg" ++ sfx) (s!"{rs.c.value} {rs.c.qNum}" == s!"{v} {n}")
                 s!"{rs.c.value} {rs.c.qNum}" s!"{v} {n}"
-              specCheck r st ln "refsem.psi" (closeVec rs.q.psi impl) (firstDiff rs.q.psi impl) (showVec impl)
-            | none => specCheck r st ln "refsem.run" false "executable program" "reference semantics rejects it"
+              specCheck r st ln ("refsem.psi" ++ sfx) (closeVec rs.q.psi impl) (firstDiff rs.q.psi impl) (showVec impl)
+            | none => specCheck r st ln ("refsem.run" ++ sfx) false "executable program" "reference semantics rejects it"
           else r
-        some ({ st with sym := some s', lastFinish := (impl, s!"{v} {n}"),
+        -- continue from the implementation's own state (each step is compared in isolation)
+        let s'' : Sym Float :=
+          if impl.size == s'.qReg.psi.size then
+            { s' with qReg := { s'.qReg with psi := impl },
+                      cReg := { s'.cReg with value := (tokNat v).getD s'.cReg.value } }
+          else s'
+        some ({ st with sym := some s'', lastFinish := (impl, s!"{v} {n}"),
                         symFresh := what == "new" || what == "reset" }, r)
       | none, _ => some (st, r.mismatch st ln ("isym." ++ what) "enough-draws" (String.intercalate " " (obs.take 6)))
       | _, _ => some (st, r.mismatch st ln ("isym." ++ what) "creg v n psi …" (String.intercalate " " (o.take 4)))
@@ -1037,11 +1049,14 @@ def stepInt (st : DSt) (r : Report) (ln : Nat) (cmd obs : Toks) : Option (DSt ×
     let v ← tokFloat bits
     let toks := st.lastSummary
     let afterTail := (toks.dropWhile (· != "tail")).drop 2
-    match parseCVec afterTail, Op.rz (halfPhase v) 1 with
-    | some (iv, _), some o =>
-      let want := MultiOp.applyArr o (probeState 1)
+    -- reference: the implementation's own op::rz(value, 1) on the probe state (so that a defect
+    -- of the rz gate itself is not attributed to the expression pipeline)
+    match parseCVec afterTail, parseCVec obs, Op.rz (halfPhase v) 1 with
+    | some (iv, _), some (want, _), some o =>
+      let r := if closeVec (MultiOp.applyArr o (probeState 1)) want then r
+               else r.mismatch st ln "iexprval.probe" "model rz(value)" (showVec want)
       some (st, specCheck r st ln "c10.expr" (closeVec want iv) (showVec want) (showVec iv))
-    | _, _ => some (st, specCheck r st ln "c10.expr" false "a queued rz" (String.intercalate " " (toks.take 10)))
+    | _, _, _ => some (st, specCheck r st ln "c10.expr" false "a queued rz" (String.intercalate " " (toks.take 10)))
   | ["isnap"] => some ({ st with snap := st.lastSummary }, r)
   | ["iunchanged"] =>
     some (st, specCheck r st ln "iunchanged" (st.snap == st.lastSummary) "session summary unchanged"
@@ -1381,7 +1396,20 @@ partial def loop (h : IO.FS.Stream) (st : DSt) (r : Report) (ln : Nat) : IO Repo
     loop h { caseId := id } { r with cases := r.cases + 1 } (ln + 1)
   else
     let (cmd, obs) := splitLine line
+    let before := r.msgs.size
     let (st, r) := step st { r with lines := r.lines + 1 } ln cmd obs
+    -- an operator acted differently in model and implementation?
+    let opDiff := (r.msgs.toList.drop before).any (fun m =>
+      let tag := (m.splitOn " ").getD 3 ""
+      m.startsWith "MISMATCH" &&
+        (tag.endsWith ".probe" || tag == "apply" || tag == "applyeach" || tag == "matrix" || tag == "dft"))
+    let st := if opDiff then { st with opsAgree := false } else st
+    -- continue from the implementation's own buffer, so that every command is compared in
+    -- isolation and one disagreement does not propagate through the rest of the case
+    let st := match st.q with
+      | some q => if st.implPsi.size == q.psi.size && st.implPsi.size > 0 then
+                    { st with q := some { q with psi := st.implPsi } } else st
+      | none => st
     loop h st r (ln + 1)
 
 def main (args : List String) : IO UInt32 := do
